@@ -49,10 +49,14 @@ RULE = ("seeded histories of 2-8 requests (quick; up to 14 thorough) whose outco
         "seeded schedules (serial, uniform, sticky, pct, lock-biased; decision at every source line of loops.py and every "
         "lock operation), then a sequential continuation after quiescence; non-trivial = a history in which the breaker "
         "left CLOSED (threads plans: additionally at least one pre-emption inside run()); distinct = distinct "
-        "(configuration, operation lists)")
+        "(configuration, operation lists).  In every family the seed also draws recording / raising on_block and on_permit "
+        "observers, slow agents (virtual time passes inside express()) and re-entrant agents (the agent of a request runs "
+        "enough failing requests to trip the breaker and lets time pass before it gives its own verdict); a threads "
+        "scenario keeps a request in flight while another task trips the breaker and advances the clock")
 COMPONENTS = {"real": ["operon_ai.topology.loops.CoherentFeedForwardLoop (run, breaker, cache)",
                        "operon_ai.state.metabolism.ATP_Store (shared budget the fakes spend from)"],
-              "stub": ["executor / assessor agents (scripted fakes that spend energy)", "datetime.now (virtual clock)",
+              "stub": ["executor / assessor agents (scripted fakes that spend energy, may stall and re-enter the loop)",
+                       "on_block / on_permit observers (recording / raising fakes)", "datetime.now (virtual clock)",
                        "threading.Lock (SimLock)", "the OS scheduler (seeded line-granularity scheduler, threads family)"]}
 ASSUMPTIONS = [
     "definite failures are: an agent raising, and an executor FAILURE verdict beside an assessor PERMIT under AND / "
@@ -65,6 +69,10 @@ ASSUMPTIONS = [
     "'the timeout has elapsed' includes the instant exactly at last failure + timeout",
     "a request admitted while the breaker reports OPEN or HALF_OPEN is a probe; any number of probes may be admitted",
     "the state reported by get_circuit_breaker_stats() before a request is the state that request meets (sequential phases only)",
+    "a raising on_block / on_permit observer is the caller's own exception: the reply it was handed stands for the returned "
+    "one and all breaker clauses are judged from the stats afterwards",
+    "a failure is recorded after the request's first agent has answered and before run() returns; for a request that was in "
+    "flight while its agent ran other requests the outcome is recorded into the state sampled when that agent had finished",
     "threads family: pre-emption granularity is the source line of loops.py; stats are sampled atomically (tracing "
     "suspended for the getter); a sample showing CLOSED with failure_count 0 is a point from which 'in total' restarts; "
     "while requests overlap only early_open, the CIRCUIT_OPEN-reply contract, certain-isolation, all-failing late_open "
@@ -76,7 +84,8 @@ EXPECT_PROBES = ("opened", "half_open_seen", "probe_success_closed", "probe_fail
                  "executor_failure_in_window", "neutral_request",
                  "threads_run", "overlapping_requests", "overlap_while_recovering", "closed_zero_sample_during_overlap",
                  "overlap_all_failing_judged", "overlap_certainly_open_judged", "post_continuation_request",
-                 "preempted_while_holding_a_lock")
+                 "preempted_while_holding_a_lock", "observer_raised", "request_in_flight_over_others",
+                 "request_spans_clock_move", "last_failure_pinned_after_clock_move")
 
 EXEC_PERMITS = ("EXECUTE", "PERMIT")
 EXC = {"RuntimeError": RuntimeError, "ValueError": ValueError, "TimeoutError": TimeoutError, "KeyError": KeyError}
@@ -128,6 +137,7 @@ def _pair(rng, c, profile):
 
 
 # pct estimates are scaled to the size of the overlapping phase in _gen_threads (est = steps per request x requests)
+CALLBACKS = [(6, "none"), (2, "record"), (1.2, "raise"), (0.8, "raise_block"), (0.8, "raise_permit")]
 STRATEGIES = [(1, {"kind": "serial"}), (2, {"kind": "uniform"}), (2, {"kind": "sticky", "p": 0.7}),
               (3, {"kind": "sticky", "p": 0.9}), (2, {"kind": "sticky", "p": 0.97}), (4, {"kind": "pct", "d": 1}),
               (4, {"kind": "pct", "d": 2}), (2, {"kind": "pct", "d": 3}), (2, {"kind": "lock_biased", "k": 4})]
@@ -154,14 +164,49 @@ def _few_preemptions(rng, plan):
     plan["switches"] = sw
 
 
+def _gen_trip_in_flight(rng, cfg, profile):
+    """A request admitted while CLOSED is still in flight when others trip the breaker and time passes; it then fails.
+    Afterwards the clock is put just below / at last failure + timeout and the breaker is probed sequentially."""
+    thr, timeout = cfg["threshold"], cfg["timeout"]
+    pid = [0]
+
+    def req(c, extra=None):
+        pid[0] += 1
+        return ["req", pid[0] - 1] + _pair(rng, c, profile) + ([extra] if extra else [])
+
+    pre = [req("failure") for _ in range(max(0, thr - 1 - (1 if rng.random() < 0.2 else 0)))]
+    dt = rng.choice([0.5, timeout / 2, timeout / 2, timeout])
+    slow = [req("failure", {"at": rng.choice(["executor", "assessor"]), "stall": dt} if rng.random() < 0.4 else None)]
+    tripper = [req("failure")]
+    if len(slow[0]) == 4 or rng.random() < 0.5:
+        tripper.append(["clock", "adv", dt])
+    if rng.random() < 0.3:
+        tripper.append(req(rng.choice(["failure", "success"])))
+    tasks = [slow, tripper] if rng.random() < 0.5 else [tripper, slow]
+    if rng.random() < 0.2:
+        tasks.append([req(rng.choice(["failure", "block", "success"]))])
+    post = [["clock", "rel", rng.choice([-1.0, -0.001, -0.001, 0.0, 0.001])],
+            req(rng.choice(["success", "success", "failure"]))]
+    if rng.random() < 0.5:
+        post += [["clock", "rel", rng.choice([-0.001, 0.0, 1.0])], req(rng.choice(["success", "failure"]))]
+    if cfg["strategy"]["kind"] == "pct":
+        cfg["strategy"]["est"] = STEPS_PER_REQUEST * 2
+    plan = {"family": "threads", "config": cfg, "pre": pre, "tasks": tasks, "post": post}
+    _few_preemptions(rng, plan)
+    return plan
+
+
 def _gen_threads(rng, tier):
     thr = rng.choice([1, 2, 2, 2, 3, 3, 4])
     timeout = rng.choice([1.0, 30.0, 60.0])
     cfg = {"threshold": thr, "timeout": timeout, "logic": weighted(rng, LOGICS),
            "breaker": rng.random() < 0.93, "cache": rng.random() < 0.3, "ttl": 300.0,
-           "strategy": dict(weighted(rng, STRATEGIES))}
+           "callbacks": weighted(rng, CALLBACKS), "strategy": dict(weighted(rng, STRATEGIES))}
     profile = weighted(rng, [(3, "exc"), (3, "fail"), (4, "mixed")])
-    scenario = weighted(rng, [(4.5, "open_elapsed"), (2.5, "closed"), (1.5, "open_young"), (1.5, "random")])
+    scenario = weighted(rng, [(4.0, "open_elapsed"), (2.0, "closed"), (1.2, "open_young"), (1.3, "random"),
+                              (2.0, "trip_in_flight")])
+    if scenario == "trip_in_flight":
+        return _gen_trip_in_flight(rng, cfg, profile)
     pid = [0]
 
     def req(c):
@@ -225,7 +270,8 @@ def gen(rng, tier, i):
     thr = rng.choice([1, 2, 2, 3, 3, 4])
     timeout = rng.choice([1.0, 30.0, 60.0])
     cfg = {"threshold": thr, "timeout": timeout, "logic": weighted(rng, LOGICS),
-           "breaker": rng.random() < 0.93, "cache": rng.random() < 0.5, "ttl": rng.choice([300.0, 300.0, 45.0])}
+           "breaker": rng.random() < 0.93, "cache": rng.random() < 0.5, "ttl": rng.choice([300.0, 300.0, 45.0]),
+           "callbacks": weighted(rng, CALLBACKS)}
     profile = weighted(rng, [(3, "exc"), (3, "fail"), (4, "mixed")])
     target = rng.randint(2, 8 if tier == "quick" else 14)
     ops, nreq, fresh, nf, opened = [], 0, 0, 0, False
@@ -260,6 +306,25 @@ def gen(rng, tier, i):
                 pair = _pair(rng, c, profile)
             ops.append(["req", pid] + pair)
             nreq += 1
+            x = rng.random()
+            if x < 0.07 and not opened and nreq < target:
+                # the agent of this request re-enters the loop: enough failing requests to trip the breaker (or one less)
+                # run and return while this one is in flight, then virtual time passes, then this one gets its verdict
+                m = max(1, thr - nf - (1 if c == "failure" else 0)) - (1 if rng.random() < 0.25 else 0)
+                inner = []
+                for _ in range(max(0, m)):
+                    inner.append([fresh] + _pair(rng, "failure", profile))
+                    fresh += 1
+                ops[-1].append({"at": rng.choice(["executor", "executor", "assessor"]), "nested": inner,
+                                "stall": rng.choice([0.0, 0.5, timeout / 2, timeout / 2, timeout])})
+                ops.append(["clock", "rel", rng.choice([-1.0, -0.001, -0.001, 0.0, 0.001])])
+                ops.append(["req", fresh] + _pair(rng, rng.choice(["success", "success", "failure"]), profile))
+                fresh += 1
+                nreq += 1 + len(inner)
+                nf += len(inner)
+            elif x < 0.15:
+                ops[-1].append({"at": rng.choice(["executor", "assessor"]),
+                                "stall": rng.choice([0.25, timeout / 2, timeout, 2 * timeout])})
             if c == "failure":
                 nf += 1
                 if nf >= thr:
@@ -290,15 +355,16 @@ def simplify(plan):
     if plan.get("family") == "threads" and len(plan["tasks"]) > 2:
         for j in range(len(plan["tasks"])):
             yield {**plan, "tasks": [t for jj, t in enumerate(plan["tasks"]) if jj != j], "switches": []}
-    for key, small in (("cache", False), ("logic", "AND"), ("ttl", 300.0), ("timeout", 1.0)):
-        if cfg[key] != small:
+    for key, small in (("callbacks", "none"), ("cache", False), ("logic", "AND"), ("ttl", 300.0), ("timeout", 1.0)):
+        if cfg.get(key, small) != small:
             yield {**plan, "config": {**cfg, key: small}}
     for small in (1, 2, 3):
         if small < cfg["threshold"]:
             yield {**plan, "config": {**cfg, "threshold": small}}
     lists = _op_lists(plan)
     pids = sorted({op[1] for _, ops in lists for op in ops if op[0] == "req"})
-    if pids != list(range(len(pids))):
+    has_nested = any(len(op) > 4 and op[4].get("nested") for _, ops in lists for op in ops if op[0] == "req")
+    if pids != list(range(len(pids))) and not has_nested:
         remap = {p: j for j, p in enumerate(pids)}
         new = plan
         for path, old in lists:
@@ -306,6 +372,20 @@ def simplify(plan):
         yield new
     for path, old in lists:
         for j, op in enumerate(old):
+            if op[0] == "req" and len(op) > 4:
+                ops = [list(o) for o in old]
+                ops[j] = ops[j][:4]
+                yield _with(plan, path, ops)
+                ex = op[4]
+                for key in ("stall", "nested"):
+                    if ex.get(key):
+                        ops = [list(o) for o in old]
+                        ops[j][4] = {kk: vv for kk, vv in ex.items() if kk != key}
+                        yield _with(plan, path, ops)
+                if len(ex.get("nested") or []) > 1:
+                    ops = [list(o) for o in old]
+                    ops[j][4] = {**ex, "nested": ex["nested"][:-1]}
+                    yield _with(plan, path, ops)
             if op[0] == "req":
                 for pos in (2, 3):
                     if op[pos].startswith("raise:") and op[pos] != "raise:RuntimeError":
@@ -319,13 +399,22 @@ def simplify(plan):
 
 
 # ----------------------------------------------------------------------------------------- fakes
-class Req:
-    __slots__ = ("ez_script", "ay_script", "ez", "ay", "calls")
+class ObserverError(Exception):
+    """Raised by the scripted on_block / on_permit observers (the caller's own exception, never a violation)."""
 
-    def __init__(self, ez, ay):
+
+class Req:
+    __slots__ = ("ez_script", "ay_script", "ez", "ay", "calls", "extra", "extra_done", "mid", "given", "seen")
+
+    def __init__(self, ez, ay, extra=None):
         self.ez_script, self.ay_script = ez, ay
         self.ez = self.ay = None
         self.calls = 0
+        self.extra = extra        # {"at": role, "stall": dt, "nested": [[pid, ez, ay], ...]}: what the agent does while in flight
+        self.extra_done = False
+        self.mid = None           # stats sampled when the re-entrant agent had finished its nested requests
+        self.given = None         # harness tick at which the first agent had produced its verdict
+        self.seen = None          # (which observer, action, blocked) the on_block / on_permit callback was handed
 
 
 class Fake:
@@ -344,6 +433,23 @@ class Fake:
             v = r.ay = r.ay_script
         w.budget.consume(COST, "fake-" + self.role)
         w.k.ev("express", [self.role, v])
+        ex = r.extra
+        if ex and not r.extra_done and ex.get("at", "executor") == self.role:
+            # the agent is slow (virtual time passes while the request is in flight) and / or re-enters the loop
+            r.extra_done = True
+            nested = (ex.get("nested") or []) if w.who() == "main" else []
+            for nop in nested:
+                w.nested(nop)
+            if ex.get("stall"):
+                set_clock(CLOCK.now + ex["stall"])
+                w.clock_moved()
+                w.k.fault("collab_stall")
+                w.k.ev("stall", us(CLOCK.now))
+            if nested:
+                r.mid = w.stats()
+        if r.given is None:
+            w.tick += 1
+            r.given = w.tick
         if v.startswith("raise:"):
             w.k.fault("collab_raise")
             raise EXC[v[6:]]("scripted failure of " + self.role)
@@ -372,10 +478,12 @@ class World:
         self.thr, self.logic, self.enabled = cfg["threshold"], cfg["logic"], cfg["breaker"]
         self.timeout_us = int(round(cfg["timeout"] * 1_000_000))
         self.budget = ATP_Store(budget=1_000_000, silent=quiet())
+        self.cb_mode = cfg.get("callbacks", "none")
+        hooks = {} if self.cb_mode == "none" else {"on_block": self._observer("block"), "on_permit": self._observer("permit")}
         self.loop = CoherentFeedForwardLoop(
             budget=self.budget, gate_logic=GateLogic[self.logic], enable_circuit_breaker=self.enabled,
             failure_threshold=self.thr, recovery_timeout_seconds=cfg["timeout"], enable_cache=cfg["cache"],
-            cache_ttl_seconds=cfg["ttl"], silent=quiet())
+            cache_ttl_seconds=cfg["ttl"], silent=quiet(), **hooks)
         seams.assert_sim_lock(self.loop)
         self.cur_req = {}
         self.loop.executor, self.loop.assessor = Fake("Z-exec", "executor", self), Fake("Y-risk", "assessor", self)
@@ -389,6 +497,8 @@ class World:
         self.left_closed = False
         self.tick = 0
         self.last = None       # record of the latest sequential request
+        self.clock_moves = []  # (tick, new clock value) of every clock move made while tasks overlap
+        self.stop = False
 
     def who(self):
         s = self.sched
@@ -407,25 +517,57 @@ class World:
         finally:
             sys.settrace(old)
 
+    def _observer(self, which):
+        """Recording on_block / on_permit; in the raising modes it raises after having recorded what it was given."""
+        def observe(result):
+            r = self.cur_req.get(self.who())
+            if r is not None:
+                r.seen = (which, str(result.action), bool(result.blocked))
+            self.k.ev("observer", which)
+            if self.cb_mode in ("raise", "raise_" + which):
+                self.k.fault("collab_raise")
+                raise ObserverError(which)
+        return observe
+
+    def clock_moved(self):
+        self.tick += 1
+        self.clock_moves.append((self.tick, CLOCK.now))
+
+    def nested(self, nop):
+        """A request made by an agent from inside express() while the outer request is in flight (sequential engine)."""
+        me = self.who()
+        outer = self.cur_req[me]
+        self.k.fault("collab_reenter")
+        ok = self.seq_op(["req"] + list(nop), None)
+        self.cur_req[me] = outer
+        if not ok:
+            self.stop = True
+
     def clear(self):
         self.f_hi = 0
         del self.window[:], self.streak[:], self.cands[:]
 
     def invoke(self, op, tracer=None):
-        r = Req(op[2], op[3])
+        r = Req(op[2], op[3], op[4] if len(op) > 4 else None)
         self.cur_req[self.who()] = r
         self.tick += 1
         rec = {"pid": op[1], "inv": self.tick, "t_inv": CLOCK.now}
         out = call(self.loop.run, f"request #{op[1]}", tracer=tracer)
         self.tick += 1
-        rec.update(ret=self.tick, t_ret=CLOCK.now, out=out, asked=r.calls > 0, calls=r.calls, ez=r.ez, ay=r.ay)
+        rec.update(ret=self.tick, t_ret=CLOCK.now, out=out, asked=r.calls > 0, calls=r.calls, ez=r.ez, ay=r.ay,
+                   mid=r.mid, lo=r.given if r.given is not None else rec["inv"])
         if out.kind == "ok":
             rec["action"], rec["blocked"] = str(out.value.action), bool(out.value.blocked)
+        elif out.kind == "raised" and isinstance(out.exc, ObserverError) and r.seen is not None:
+            # a raising observer is the caller's own exception: the reply it was handed stands for the returned one,
+            # and every breaker clause is judged as usual from the stats afterwards
+            rec["action"], rec["blocked"] = r.seen[1], r.seen[2]
+            self.k.probe("observer_raised")
         return rec
 
     def not_returned(self, rec, site):
         out = rec["out"]
-        if out.kind == "ok":
+        if "action" in rec:
             return False
         kind = {"deadlock": "self_deadlock", "step_budget": "no_return_within_step_budget"}.get(
             out.kind, "raised:" + type(out.exc).__name__)
@@ -441,6 +583,10 @@ class World:
 
     # ------------------------------------------------------------------ sequential operations (full automaton)
     def seq_op(self, op, tr):
+        """One operation with nobody else running.  False = stop the run (a call did not return)."""
+        return self._seq_op(op, tr) and not self.stop
+
+    def _seq_op(self, op, tr):
         k, cfg, thr, logic = self.k, self.cfg, self.thr, self.logic
         cands, window, streak, answered, timeout_us = self.cands, self.window, self.streak, self.answered, self.timeout_us
         name = op[0]
@@ -475,6 +621,7 @@ class World:
         s0, fc0, trips0 = self.stats()
         bal0 = self.budget.get_balance()
         now = us(CLOCK.now)
+        cands0 = [list(c) for c in cands]       # a re-entrant agent may run whole requests before this one returns
         rec = self.last = self.invoke(op, tracer=tr)
         asked, ez, ay = rec["asked"], rec["ez"], rec["ay"]
         if self.not_returned(rec, s0):
@@ -495,10 +642,10 @@ class World:
                 answered[pid] = classify(logic, ez, ay)
             return True
 
-        elapsed = [now - us(t) for t, _ in cands]
-        isolation_due = s0 == "OPEN" and bool(cands) and all(e < timeout_us for e in elapsed)
-        recovery_due = s0 == "OPEN" and bool(cands) and all(e >= timeout_us for e in elapsed)
-        csite = kinds(c[1] for c in cands)
+        elapsed = [now - us(t) for t, _ in cands0]
+        isolation_due = s0 == "OPEN" and bool(cands0) and all(e < timeout_us for e in elapsed)
+        recovery_due = s0 == "OPEN" and bool(cands0) and all(e >= timeout_us for e in elapsed)
+        csite = kinds(c[1] for c in cands0)
         if "fail" in csite or "fail" in streak:
             k.probe("executor_failure_in_window")
 
@@ -531,9 +678,18 @@ class World:
                     k.violation("isolation", "agents_invoked_for_circuit_open_reply", csite, f"asked={asked} spent={spent}")
                 if not blocked:
                     k.violation("isolation", "circuit_open_reply_not_blocked", csite)
-            return True
+            return not self.stop
 
-        probe_ctx = s0 in ("OPEN", "HALF_OPEN")
+        # the state the outcome is recorded into: the state the request met - or, for a request that was in flight while
+        # its agent ran other requests, the state sampled when that agent had finished (only then can it be recorded)
+        if rec["mid"] is not None:
+            s0, fc0, trips0 = rec["mid"]
+            probe_ctx, closed_ctx = s0 == "HALF_OPEN", s0 == "CLOSED"
+            k.probe("request_in_flight_over_others")
+        else:
+            probe_ctx, closed_ctx = s0 in ("OPEN", "HALF_OPEN"), s0 == "CLOSED"
+        if rec["t_ret"] != rec["t_inv"]:
+            k.probe("request_spans_clock_move")
 
         if not asked:
             # admitted but answered without the agents: a cache hit
@@ -568,7 +724,7 @@ class World:
                 self.clear()
             else:
                 del streak[:]
-                if s1 == "OPEN":
+                if closed_ctx and s1 == "OPEN":
                     k.violation("early_open", "opened_by_non_failure", "success")
         elif c == "block":
             if self.f_hi:
@@ -596,7 +752,7 @@ class World:
                     k.violation("probe", "failed_probe_did_not_reopen", c, f"state before={s0} after={s1}")
                 else:
                     k.probe("probe_failed_reopened")
-            else:
+            elif closed_ctx:
                 if len(streak) >= thr and s1 != "OPEN":
                     k.violation("late_open", "not_open_after_threshold_consecutive_failures", kinds(streak[-thr:]),
                                 f"threshold={thr} consecutive failures={streak} state={s1} failure_count={fc1}")
@@ -614,7 +770,7 @@ class World:
                             f"threshold={thr} possible failures in total={self.f_hi}")
             if probe_ctx and s1 == "CLOSED":
                 self.clear()
-        return True
+        return not self.stop
 
 
 # ----------------------------------------------------------------------------------------- run
@@ -662,12 +818,15 @@ def _run_threads(plan, k):
     t_phase = CLOCK.now
     pre_elapsed = [us(t_phase) - us(t) for t, _ in w.cands]
     certainly_open = (w.enabled and q_state == "OPEN" and bool(w.cands) and all(e < timeout_us for e in pre_elapsed)
-                      and not any(op[0] in ("clock", "reset") for ops in plan["tasks"] for op in ops))
+                      and not any(op[0] in ("clock", "reset") or len(op) > 4 for ops in plan["tasks"] for op in ops))
     if q_state != "CLOSED" and w.cands and all(e >= timeout_us for e in pre_elapsed):
         k.probe("overlap_while_recovering")
 
     # ---- overlapping phase
-    recs, samples, clock_moves, resets = [], [], [], []
+    recs, samples, resets = [], [], []
+    clock_moves = w.clock_moves
+    del clock_moves[:]
+    phase_tick = w.tick
 
     def sample(why):
         s = w.stats(atomic=True)
@@ -682,8 +841,7 @@ def _run_threads(plan, k):
                 if op[0] == "clock":
                     if op[1] == "adv" and op[2] > 0:      # forward only while requests overlap
                         set_clock(CLOCK.now + op[2])
-                        w.tick += 1
-                        clock_moves.append((w.tick, CLOCK.now))
+                        w.clock_moved()
                         k.fault("clock_forward")
                         k.ev("clock", us(CLOCK.now))
                     continue
@@ -814,11 +972,26 @@ def _run_threads(plan, k):
                             f"failure_count={end_count}")
 
     # ---- hand the automaton over to the sequential continuation
+    #      A failure is recorded after the request's first agent has answered (tick `lo`) and before it returns (`ret`).
+    #      A request whose whole record window lies before the answer of a later *definite* failure cannot hold the last
+    #      failure; the same goes for everything recorded in the sequential pre-phase once a definite failure overlapped.
+    definite = [r for r in recs if r["cls"] in ("exc", "fail")]
+    if definite:
+        del w.cands[:]
+
+    def clock_at(tick):
+        before = [t for tk, t in clock_moves if tk <= tick]
+        return before[-1] if before else t_phase
+
     for r in recs:
         if r["could_fail"]:
             w.f_hi += 1
             w.window.append(r["cls"])
-            instants = [r["t_inv"]] + [t for tk, t in clock_moves if r["inv"] < tk < r["ret"]]
+            if any(d is not r and d["lo"] > r["ret"] for d in definite):
+                continue
+            instants = [clock_at(r["lo"])] + [t for tk, t in clock_moves if r["lo"] < tk < r["ret"]]
+            if len(set(instants)) == 1 and instants[0] != t_phase:
+                k.probe("last_failure_pinned_after_clock_move")
             for t in sorted(set(instants)):
                 w.cands.append([t, r["cls"]])
     del w.streak[:]
